@@ -12,7 +12,7 @@ A semantic property the repository is supposed to satisfy:
   Quantified over: {p['quantifier']['text']}
 
 YOUR TASK: produce TWO different, realistic changes to the repository's non-test Go source (call them A and B; each independent, each applied to the unchanged tree) such that, with the change applied:
-  1. the code still compiles and the repository's EXISTING test suite still passes, unedited (run it: `cd /tmp/seed-{pid} && GOPROXY=off GOSUMDB=off GOTOOLCHAIN=local go build ./... && GOPROXY=off GOSUMDB=off GOTOOLCHAIN=local go test -vet=off -count=1 ./... && cd gcetcbendorsement && GOPROXY=off GOSUMDB=off GOTOOLCHAIN=local go test -vet=off -count=1 ./...` — there is no network; do not set GOFLAGS=-mod=mod in the repo, it uses a go.work workspace);
+  1. the code still compiles and the repository's EXISTING test suite still passes, unedited (run it: `cd /tmp/seed-{pid} && GOPROXY=off GOSUMDB=off GOTOOLCHAIN=local go build ./... && GOPROXY=off GOSUMDB=off GOTOOLCHAIN=local go test -vet=off -count=1 ./... && cd gcetcbendorsement && GOPROXY=off GOSUMDB=off GOTOOLCHAIN=local go test -vet=off -count=1 ./...` — there is no network; do not set GOFLAGS=-mod=mod in the repo, it uses a go.work workspace; NOTE: testing/nonprod/localkm TestLoadKeys/bad_key_in_dir fails on the UNCHANGED tree because tests run as root here — ignore that one failure and run the two module suites separately rather than with &&);
   2. the property above is VIOLATED — not for every use, but for something specific: a particular input or boundary value, a multi-step sequence of operations, an unusual configuration, a fault at a particular point, a particular interleaving, or two cooperating code sites that each look fine alone. Prefer subtle changes that a code reviewer could plausibly let through (an off-by-one, a dropped or reordered check, a wrong map key, a condition that is right for the common case only, an optimisation that skips work, a refactoring slip), NOT changes that ordinary use or the existing tests would expose at once, and not changes outside the behaviour the property talks about. A and B should touch different mechanisms (different functions or different clauses of the property).
   3. you have a DEMONSTRATION for each: a new Go test file (or small program) that FAILS with the change and PASSES on the unchanged tree, showing the violation concretely against the real code. Put the demonstration in a new file so it does not edit existing tests.
 
